@@ -133,6 +133,17 @@ P = {
        "is also mutated as a cache by the look-up — transparent only by a value-level argument, not decided.",
   technique="who-may-write / mod-ref analysis + provenance of keys + must-pass-through + type walk for shared state + call scan",
   ref="§4 C05"),
+ "C08": dict(
+  text="The join between a base candidate and a suffix form is located by role in both sibling functions, every MIR path through it is summarised as "
+       "(conditions, effects) and turned into a 12-row decision table over (last character ∈ {ৎ, ং, other}, is-vowel, first-is-sign), which is "
+       "compared with an independent transcription of the three stated joining rules and with the sibling's table; slice bounds of suffix key and "
+       "base key are evaluated as affine forms over word length and loop variable to show that split points partition the word, each tried once, for "
+       "every word longer than two characters; a loop-shape rule shows every base entry reaches the push (only empty strings are skipped) and loops "
+       "end only by exhaustion; the 26-row letter map names only tables present in dictionary.json; the vowel / vowel-sign classes are read as sets "
+       "from their predicates' MIR and compared with Unicode. Decides joining and completeness structure; not regex justification.",
+  note="Trusted: okkhor's regex patterns and the regex crate (which dictionary words match) are third-party value-level behaviour; memo contents are C05's lemma.",
+  technique="sibling cross-check of extracted decision tables + affine index evaluation + loop-shape rule + data/table agreement",
+  ref="§4 C08"),
 }
 
 NA_REASON = "rule module not built yet in this round (see DESIGN.md §4 for the planned static rules)"
